@@ -2,7 +2,7 @@
    hook) against the model's infer / infer_detailed / common / generalize / data_asg / rich_asg, compared by
    structural equality of `ty`. *)
 From Coq Require Import ZArith NArith Bool List.
-From PcoreV Require Import Model.Base Model.Ty Model.Lattice Model.Infer Model.InferHist Model.InferAsk Corr.CorrC01.
+From PcoreV Require Import Model.Base Model.Ty Model.Lattice Model.Infer Model.InferHist Model.InferAsk Model.InferRuntime Corr.CorrC01.
 Import ListNotations.
 
 (* (value, observed v.PType(), observed DetailedValueType(v)) *)
@@ -46,3 +46,31 @@ Definition ask_check (o : oracle) (c : list node * list qop * (list ty * list (b
   wf_dag ns && forallb (qop_ok ns) ops && list_eqb ty_eqb (snd (fst st)) (fst (snd c)) && list_eqb answer_eqb (snd st) (snd (snd c)).
 Definition ask_mismatches (o : oracle) (cs : list (list node * list qop * (list ty * list (bool * bool)))) : list N :=
   failing (ask_check o) cs.
+
+(* Runtime types (Model/InferRuntime.v) against the implementation; reflect is the oracle: `gt` lists the pairs (x, y) of
+   numbered Go types with x.AssignableTo(y), `gn` their String() *)
+Inductive rcase :=
+| RAsg (t o : rty) (observed : bool)          (* px.IsAssignable(t, o) *)
+| RInst (t : rty) (v : N) (observed : bool)   (* px.IsInstance(t, WrapRuntime(value of Go type v)) *)
+| ROf (v : N) (observed : rty)                (* WrapRuntime(value of Go type v).PType() *)
+| RCommon (a b observed : rty)                (* CommonType(a, b) *)
+| RFold (vs : list N) (observed : rty).       (* the element type of WrapValues(vs).PType() *)
+
+Definition gasg_of (gt : list (N * N)) (x y : N) : bool := existsb (fun p => N.eqb (fst p) x && N.eqb (snd p) y) gt.
+Fixpoint tname_of (gn : list (N * str)) (x : N) : str :=
+  match gn with
+  | [] => []
+  | (y, s) :: gn' => if N.eqb x y then s else tname_of gn' x
+  end.
+
+Definition runtime_check (gt : list (N * N)) (gn : list (N * str)) (c : rcase) : bool :=
+  let gasg := gasg_of gt in
+  let tname := tname_of gn in
+  match c with
+  | RAsg t o b => Bool.eqb (rt_asg gasg t o) b
+  | RInst t v b => Bool.eqb (rt_inst gasg tname t v) b
+  | ROf v t => rty_eqb (rt_of tname v) t
+  | RCommon a b c => rty_eqb (rt_common gasg a b) c
+  | RFold vs t => match rt_elem gasg tname vs with Some t' => rty_eqb t' t | None => false end
+  end.
+Definition runtime_mismatches (gt : list (N * N)) (gn : list (N * str)) (cs : list rcase) : list N := failing (runtime_check gt gn) cs.
